@@ -786,6 +786,20 @@ func c17R10(p *core.Program, r *core.Report) {
 		if id, isTrue := ast.Unparen(as.Rhs[0]).(*ast.Ident); !isTrue || id.Name != "true" {
 			return true
 		}
+		// a store under `m.Name() == <copy method name>` with m one of the type's own methods records that the method
+		// was FOUND; only a store that does not depend on what the type has takes the method for granted
+		found := false
+		for _, fct := range g.FactsAt(g.PointOf(as)) {
+			if fct.Cond == nil || !fct.Val {
+				continue
+			}
+			if mentionsMethodName(info, cf.Body, fct.Cond, 0) {
+				found = true
+			}
+		}
+		if found {
+			return true
+		}
 		n++
 		excluded := false
 		for _, tf := range typeFactsNegAt(cf, as) {
@@ -793,7 +807,6 @@ func c17R10(p *core.Program, r *core.Report) {
 				excluded = true
 			}
 		}
-		_ = g
 		r.Check(excluded, rule, cf, "the copy methods are taken for granted only for kinds the generator renders them for: "+fld.Name(), as.Pos(), "the store is reached only when the type's underlying type is not an interface",
 			"`"+core.ExprStr(as)+"` is reached for every same-package named field type, also for an interface type - for which the generator answers ErrSkip and renders no methods: the generated `in.F."+strings.TrimPrefix(fld.Name(), "Has")+"(...)` does not compile, and the ErrSkip of that dependency ends the loop over the dependencies that follow it")
 		return true
@@ -968,4 +981,64 @@ func generatorWorkerName(p *core.Program, rel, deflt string) string {
 		}
 	}
 	return deflt
+}
+
+// mentionsMethodName: the condition compares the name of one of a type's own methods - `m.Name()` with m taken from
+// (*types.Named).Method / Methods, directly or through locals (`name := m.Name()`, `for m := range x.Methods()`).
+func mentionsMethodName(info *types.Info, body ast.Node, e ast.Expr, depth int) bool {
+	if depth > 6 || e == nil {
+		return false
+	}
+	found := false
+	ast.Inspect(e, func(q ast.Node) bool {
+		if found {
+			return false
+		}
+		switch y := q.(type) {
+		case *ast.CallExpr:
+			if strings.HasSuffix(core.CalleeName(info, y), ").Name") && fromMethodQuery(info, body, recvOf(y), 0) {
+				found = true
+			}
+		case *ast.Ident:
+			if v, ok := info.ObjectOf(y).(*types.Var); ok && !v.IsField() {
+				if d, single := core.SingleDef(info, body, v); single && d.Rhs != nil && d.Index < 0 && (d.Kind == "define" || d.Kind == "var") {
+					if mentionsMethodName(info, body, d.Rhs, depth+1) {
+						found = true
+					}
+				}
+			}
+		}
+		return !found
+	})
+	return found
+}
+
+func fromMethodQuery(info *types.Info, body ast.Node, e ast.Expr, depth int) bool {
+	if depth > 6 || e == nil {
+		return false
+	}
+	found := false
+	ast.Inspect(e, func(q ast.Node) bool {
+		if found {
+			return false
+		}
+		switch y := q.(type) {
+		case *ast.CallExpr:
+			switch core.CalleeName(info, y) {
+			case "(*go/types.Named).Method", "(*go/types.Named).Methods":
+				found = true
+			}
+		case *ast.Ident:
+			if v, ok := info.ObjectOf(y).(*types.Var); ok && !v.IsField() {
+				if ds := core.DefsOf(info, body, v); len(ds) == 1 && ds[0].Rhs != nil {
+					// a definition, or the range variable of `range x.Methods()`
+					if fromMethodQuery(info, body, ds[0].Rhs, depth+1) {
+						found = true
+					}
+				}
+			}
+		}
+		return !found
+	})
+	return found
 }
